@@ -29,7 +29,7 @@ theorem known_has_tables (P : Profile) (h : ProfileWF P = true) (m : PMsg) (hm :
   simp only [ProfileWF, Bool.and_eq_true, List.all_eq_true] at h
   have := h.1.1.1.2 m hm
   simp only [msgWF, Bool.and_eq_true, List.all_eq_true, hk, Bool.not_true, Bool.false_or] at this
-  obtain ⟨⟨⟨⟨⟨⟨⟨_, h2⟩, _⟩, _⟩, _⟩, _⟩, _⟩, _⟩ := this
+  obtain ⟨⟨⟨⟨⟨⟨⟨⟨⟨_, h2⟩, _⟩, _⟩, _⟩, _⟩, _⟩, _⟩, _⟩, _⟩ := this
   exact ⟨h2.1.1, h2.1.2, h2.2⟩
 
 /-- the entry designates an existing struct field of exactly the Go type the entry's base
